@@ -46,10 +46,11 @@ namespace GeographicLib {
       throw GeographicErr("Illegal zone requested " + Utility::str(setzone));
     if (setzone >= MINZONE || setzone == INVALID)
       return setzone;
+    lon = Math::AngNormalize(lon); // This turns +/-inf into NaN
     if (isnan(lat) || isnan(lon)) // Check if lat or lon is a NaN
       return INVALID;
     if (setzone == UTM || (lat >= -80 && lat < 84)) {
-      int ilon = int(floor(Math::AngNormalize(lon)));
+      int ilon = int(floor(lon));
       if (ilon == Math::hd) ilon = -Math::hd; // ilon now in [-180,180)
       int zone = (ilon + 186)/6;
       int band = MGRS::LatitudeBand(lat);
